@@ -582,6 +582,7 @@ func main() {
 	outp := flag.String("out", "", "output file")
 	scale := flag.String("scale", "", "name=expr,... constant declarations to rewrite in the package (stated scaling)")
 	allpkg := flag.Bool("allpkg", false, "lower every function of the main package")
+	scaledOut := flag.String("scaledout", "", "directory to write the constant-rewritten source files to (for native replay)")
 	flag.Parse()
 
 	for _, s := range strings.Split(*stop, ",") {
@@ -623,6 +624,11 @@ func main() {
 			}
 			if ch {
 				ov[f] = src
+				if *scaledOut != "" {
+					if err := os.WriteFile(filepath.Join(*scaledOut, filepath.Base(f)), src, 0o644); err != nil {
+						fatal(err)
+					}
+				}
 			}
 		}
 		for k := range repl {
